@@ -272,7 +272,8 @@ class TransferMonitor:
     # -- M2 -------------------------------------------------------------------
     def op_called(self, transfer, op: str, dispatched: str, args, kwargs) -> dict:
         rec = {'t_call': self.now, 'transfer': self.key(transfer), 'direction': transfer.direction.name,
-               'op': op, 'dispatched': dispatched, 'locked_at_call': transfer._state_lock.locked()}
+               'op': op, 'dispatched': dispatched, 'locked_at_call': transfer._state_lock.locked(),
+               'task': id(asyncio.current_task())}
         if rec['locked_at_call']:
             self.counters['m2_lock_waits'] += 1
         self.ops.append(rec)
